@@ -78,6 +78,17 @@ def witnesses():
             if not ok:
                 bad += 1
                 print(out[-600:])
+    # replays of former FALSE alarms (the machinery was corrected): they must
+    # stay quiet on the current tree
+    import glob
+    for path in sorted(glob.glob(os.path.join(runner.VERIF, 'findings',
+                                              'noalarm', '*.json'))):
+        rc, out = runner.replay_file(path)
+        print(f'[selftest witnesses] former false alarm '
+              f'{os.path.basename(path)}: rc={rc} '
+              f"{'ok' if rc == 0 else 'UNEXPECTED'}", flush=True)
+        if rc != 0:
+            bad += 1
     return 1 if bad else 0
 
 
